@@ -416,7 +416,7 @@ fn c_extract(lib: &Lib, archive: &[u8], encrypted: bool, sched: &Sched, decline:
     }
     // On fault-free schedules the same context (stream position left where it is) has been used before:
     // by mla_roarchive_info (its answer is checked), or by a complete earlier extraction.
-    let pre = if sched.at.is_empty() { (archive.len() + decline.len()) % 3 } else { 0 };
+    let pre = if sched.at.is_empty() { (archive.len() / 3 + decline.len()) % 3 } else { 0 };
     if pre > 0 {
         let saved = std::mem::take(&mut env.sched);
         if pre == 1 {
@@ -715,7 +715,8 @@ fn run_case(lib: &Lib, c: &Case, rep: &mut Report) {
                         rep.violate(Violation { sig: json!({"kind": "c_write_fails", "side": "write"}), detail: format!("{} with schedule {}: statuses {:x?}", p.short(), s.json(), r.statuses), replay: rp, weight: s.at.len() as u64 });
                     } else {
                         // read with the key of the last recipient registered through C
-                        let reader_key = if p.ops.len() % 3 == 0 { 0 } else { 1 };
+                        // one recipient: its key; two recipients: the first or the last registered, by the parity of the program length
+                        let reader_key = if p.ops.len() % 3 == 0 || p.ops.len() % 2 == 0 { 0 } else { 1 };
                         match guard(|| prog::read_all(&r.out, &[reader_key])) {
                             Ok(Ok(got)) => {
                                 if let Some(d) = prog::diff_model(&model, &got) {
@@ -856,7 +857,7 @@ pub fn cases(thorough: bool) -> Vec<Case> {
             // faults / single deviations at every callback index: on a subset (every 6th program), default schedule
             // programs that call mla_archive_flush are always explored (the flush callback is only reached through them)
             let explore = si == 0 && (k % (if thorough { 3 } else { 15 }) == 0 || (p.ops.contains(&Op::Flush) && (thorough || p.ops.len() <= 8)));
-            v.push(Case::Write { p: p.clone(), level: [0u32, 5, 11][k % 3], sched: s, explore_faults: explore });
+            v.push(Case::Write { p: p.clone(), level: [0u32, 5, 11][(k % 7) % 3], sched: s, explore_faults: explore });
         }
     }
     // names that are not ASCII (byte length != character count), a long name, a name with a space: through both directions
@@ -870,7 +871,7 @@ pub fn cases(thorough: bool) -> Vec<Case> {
     };
     for (k, p) in families::bases(Entropy::Pattern).iter().enumerate() {
         let q = odd_names(p);
-        v.push(Case::Write { p: q.clone(), level: [0u32, 5, 11][k % 3], sched: Sched { uniform: Some(7), at: BTreeMap::new() }, explore_faults: false });
+        v.push(Case::Write { p: q.clone(), level: [0u32, 5, 11][(k % 7) % 3], sched: Sched { uniform: Some(7), at: BTreeMap::new() }, explore_faults: false });
         for l in L4::ALL {
             for d in [0u8, 1, 2] {
                 v.push(Case::Extract { p: q.clone(), layers: l, sched: Sched { uniform: Some(5), at: BTreeMap::new() }, explore_faults: false, decline: d });
@@ -946,7 +947,7 @@ pub fn run(started: Instant) -> i32 {
         rep,
         Meta {
             level: "model_checking",
-            rule: "libmla.so built from the working tree is loaded with dlopen and driven through its C entry points in worker processes. (1) every program of a bounded tree (and rich bases, flush placements) expressed as mla_archive_file_new/append/flush/close + mla_archive_close, with one recipient, two recipients in one PEM text or two in two calls (the archive is read back with the key of the last one), and write callbacks that accept everything / 1 byte / 7 bytes per call; the collected bytes are read by the Rust ArchiveReader and compared with the reference model; where the program calls mla_archive_flush, the bytes the callback had received when it returned are repaired and must hold what had been appended (C14's oracle). (2) archives written by the Rust writer (4 layer combos) extracted with mla_roarchive_extract through read callbacks returning everything / 1 / 5 bytes and per-file write callbacks accepting partial buffers, the recipient's private key registered alone, before or after a foreign key (one call per key): exact bytes per file; also with a file callback that declines every other file (subset extraction: nothing for the declined ones); base programs also with non-ASCII, nested and spaced names in both directions; on fault-free schedules the context has been used before, by mla_roarchive_info (version and layer bits checked against the header) or by a complete earlier extraction, and is not rewound by the caller. (3) for a subset of (1)/(2), at EVERY callback invocation index: accept 1 byte, accept half, report failure, or report an interruption (EINTR, nothing transferred: the call must be retried and the result be exact) - a reported failure must surface as a non-success status no later than the close; 37 NULL-pointer / cleared-handle / double-close / handle-after-failed-call placements and 7 calls refused for other reasons (duplicate name - the archive must then be the archive of the accepted calls -, close with a file open, level 12, malformed or wrong-kind key, extraction without / with a foreign key) must return a non-success status. No crash, signal or panic across the FFI in any case. states = distinct (case, schedule)".to_string(),
+            rule: "libmla.so built from the working tree is loaded with dlopen and driven through its C entry points in worker processes. (1) every program of a bounded tree (and rich bases, flush placements) expressed as mla_archive_file_new/append/flush/close + mla_archive_close, with one recipient, two recipients in one PEM text or two in two calls (the archive is read back with the key of the first or of the last one), and write callbacks that accept everything / 1 byte / 7 bytes per call; the collected bytes are read by the Rust ArchiveReader and compared with the reference model; where the program calls mla_archive_flush, the bytes the callback had received when it returned are repaired and must hold what had been appended (C14's oracle). (2) archives written by the Rust writer (4 layer combos) extracted with mla_roarchive_extract through read callbacks returning everything / 1 / 5 bytes and per-file write callbacks accepting partial buffers, the recipient's private key registered alone, before or after a foreign key (one call per key): exact bytes per file; also with a file callback that declines every other file (subset extraction: nothing for the declined ones); base programs also with non-ASCII, nested and spaced names in both directions; on fault-free schedules the context has been used before, by mla_roarchive_info (version and layer bits checked against the header) or by a complete earlier extraction, and is not rewound by the caller. (3) for a subset of (1)/(2), at EVERY callback invocation index: accept 1 byte, accept half, report failure, or report an interruption (EINTR, nothing transferred: the call must be retried and the result be exact) - a reported failure must surface as a non-success status no later than the close; 37 NULL-pointer / cleared-handle / double-close / handle-after-failed-call placements and 7 calls refused for other reasons (duplicate name - the archive must then be the archive of the accepted calls -, close with a file open, level 12, malformed or wrong-kind key, extraction without / with a foreign key) must return a non-success status. No crash, signal or panic across the FFI in any case. states = distinct (case, schedule)".to_string(),
             exhaustive: true,
             bounds: json!({"cases": cs.len(), "null_placements": N_NULL}),
             assumptions: vec!["the C API only offers the default layers (compress+encrypt) for writing".to_string(), "scaled constants".to_string()],
